@@ -58,3 +58,18 @@ pub open spec fn slots_unchanged_except(a: Seq<[Option<Vec<f64>>; 576]>, b: Seq<
 pub open spec fn slots_unchanged(a: Seq<[Option<Vec<f64>>; 576]>, b: Seq<[Option<Vec<f64>>; 576]>) -> bool {
     forall|i: int, j: int| 0 <= i < 32 && 0 <= j < 576 ==> slot(a, i, j) == slot(b, i, j)
 }
+
+// the j-th sent channel of packet p has been dealt with as the statement says (non-pad channels -- reset, fixed pattern noise -- carry
+// no pad waveform): the calibrated waveform sits in the slot of the pad the maps assign, unless nothing is left of it after the delay
+pub open spec fn pad_done(run: u32, b: BoardId, a: AfterId, p: PwbV2Packet, j: int, slots: Seq<[Option<Vec<f64>>; 576]>) -> bool {
+    match p.channels_sent@[j] {
+        ChannelId::Pad(c) => {
+            let pos = pad_position_of(run, b, a, c);
+            &&& pwb_lookup(run, b) is Ok
+            &&& pad_baseline_table(run, pos) is Ok && pad_gain_table(run, pos) is Ok && pad_delay_spec(run) is Ok
+            &&& ({ let cal = calibrated(waveform_of(p, p.channels_sent@[j]), pad_delay_spec(run)->Ok_0, pad_baseline_table(run, pos)->Ok_0, pad_gain_table(run, pos)->Ok_0);
+                   cal.len() == 0 || (slot(slots, pos.column.0 as int, pos.row.0 as int) matches Some(v) && v@ == cal) })
+        },
+        _ => true,
+    }
+}
